@@ -2,6 +2,8 @@
 # usage: seedone.sh <seed-id> [prop] : apply one seeded patch to its scratch worktree and run the quick check against it
 s=$1; p=${2:-${s%%-*}}; wt=/tmp/seed/${s%%-*}
 cd /verif
+mkdir -p /tmp/seed
+[ -d $wt ] || git -C /repo worktree add -q --detach $wt HEAD   # remove with: git -C /repo worktree remove --force $wt
 git -C $wt checkout -q -- . ; git -C $wt apply /verif/seeded/$s/patch.diff || { echo "$s apply-failed"; exit; }
 res=$(FRGV_REPO=$wt timeout 3000 python3 vp.py check $p --tier quick 2>&1); rc=$?
 echo "$s/$p rc=$rc violations=$(echo "$res" | grep -c '^VIOLATION') :: $(echo "$res" | grep -m1 '^VIOLATION\|^TOOL-FAILURE' | cut -c1-260)"
